@@ -123,7 +123,7 @@ def server():
     if p is None or p.poll() is not None:
         code = ("import sys; sys.path.insert(0, %r); import collections.abc; from vf.families import logrotate; "
                 "logrotate.crash_server()" % env.VERIF)
-        p = subprocess.Popen([env.PYTHON, "-B", "-c", code], stdin=subprocess.PIPE, stdout=subprocess.PIPE,
+        p = subprocess.Popen([env.PYTHON, "-B", "-W", "ignore", "-c", code], stdin=subprocess.PIPE, stdout=subprocess.PIPE,
                              env=env.child_env(), text=True, bufsize=1)
         _SERVER.clear()
         _SERVER[os.getpid()] = p
@@ -139,6 +139,8 @@ def crash_server():
         if pid == 0:
             code = 18
             try:
+                if not job.get("fsync"):
+                    LR.no_fsync()
                 w = LR.LogWorld(set(job["logs"]), job["sel"], job["period"], job["root"], **job["rot"])
                 for name, args in job["actions"]:
                     w.perform(name, tuple(args))
@@ -174,7 +176,10 @@ class CrashAdapter:
             return None
         c, r = self.init["cfg"], self.init["rcfg"]
         os.makedirs(self.root, exist_ok=True)
+        # os.fsync costs tens of milliseconds on a busy disk and cannot be told from a plain flush by killing a process:
+        # it is the real one in every 16th scenario only
         job = {"logs": sorted(c["logs"]), "sel": c["sel"], "period": c["period"], "root": self.root, "actions": self.actions,
+               "fsync": next(LR._count) % 16 == 0,
                "rot": {"keep": r["keep"], "cycle": r["cycle"], "size": r["size"], "flush": r["flush"], "reuse": r["reuse"]}}
         p = server()
         p.stdin.write(json.dumps(job) + "\n")
@@ -199,6 +204,22 @@ class CrashAdapter:
 
     def close(self):
         shutil.rmtree(self.root, ignore_errors=True)
+
+
+def annotate(d):
+    """say what the bounds were when the files on disk are not between them"""
+    if d.kind == "state-mismatch" and str(d.where).startswith("ret") and d.steps:
+        st = d.steps[-1]["state"]
+        try:
+            if d.action == "Crash":
+                d.detail = ("after the death of the process the files must hold at least %r (flushed before) and at most what "
+                            "was written; found %r" % (replay.norm(st["ret"]), replay.norm(d.actual["ret"])))
+            else:
+                d.detail = ("files on disk must hold at least the prefixes of lengths %r of %r and at most all of it; found %r"
+                            % (replay.norm(st["dur"]), replay.norm(st["ret"]), replay.norm(d.actual["ret"])))
+        except Exception:
+            pass
+    return d
 
 
 def _mk_rot(init):
@@ -255,9 +276,9 @@ def cfg_text(rulesets, maxtime, maxenv, keeps, cycles, sizes, flushes, reuses, r
     t = LR.cfg_text(rulesets, ["one"], [1], maxtime, maxenv, maxq=maxq, restart=restart, serial=True, history=history)
     t = t.replace("SPECIFICATION Spec", "SPECIFICATION RSpec")
     t += ("  Keeps = %s\n  Cycles = %s\n  Sizes = %s\n  Flushes = %s\n  Reuses = %s\n  HSize = %d\n  RSize = %d\n"
-          "  RetryRefused = %s\n  StopCycles = \"%s\"\n  Crashes = %s\n" % (
+          "  RetryRefused = %s\n  StopCycles = \"%s\"\n  Crashes = \"%s\"\n" % (
               s(keeps), s(cycles), s(sizes), s(flushes), s(str(b).upper() for b in reuses), HSIZE, RSIZE,
-              str(retry).upper(), stop, str(crashes).upper()))
+              str(retry).upper(), stop, crashes))
     if props:
         for p in ("TypeOK", "RTypeOK", "Contiguous", "NewestComplete", "HeaderFirst", "RotateOnlyAtSize", "DurableAfterCrash"):
             t += "INVARIANT %s\n" % p
@@ -301,7 +322,7 @@ def run_c23(ctx):
                 "distinct = graph edges replayed + simulated behaviours (with and without crash)")
     ctx.assume("TLC, the TLA+ value parser, the log file parser and the skedder emulation are trusted; a file's content after "
                "os._exit stands for what survives the death of the process (power loss / fsync semantics are not exercised); "
-               "os.fsync is a no-op inside ioflo.base.logging in the in-process replays, real in the killed processes")
+               "os.fsync is a no-op inside ioflo.base.logging in the in-process replays and in 15 of 16 killed processes")
     LR.ioflo()
     laps = LR.Laps()
     retry, stop = calibrate()
@@ -312,28 +333,31 @@ def run_c23(ctx):
     mid = dict(keeps=[0, 1, 2], cycles=[0, 1, 2], sizes=[0, SMALL, LARGE], flushes=[2, 4], reuses=[False, True])
     small = dict(keeps=[0, 2], cycles=[0, 1], sizes=[0, SMALL], flushes=[2], reuses=[False, True])
     pol = dict(retry=retry, stop=stop)
-    # model checking of the properties (history kept, crashes enabled)
-    mcs = [("always", cfg_text([A], ctx.pick(5, 7), 1, crashes=True, history=True, props=True, **pol, **ctx.pick(mid, full))),
-           ("streak", cfg_text([S], ctx.pick(3, 4), 2, crashes=True, history=True, props=True, **pol, **ctx.pick(small, mid)))]
+    # model checking of the properties (history kept, the process may die anywhere)
+    mcs = [("always", cfg_text([A], ctx.pick(4, 6), 1, crashes="any", history=True, props=True, **pol, **ctx.pick(mid, full))),
+           ("streak", cfg_text([S], ctx.pick(3, 4), 2, crashes="any", history=True, props=True, **pol, **small))]
     # graphs to replay
-    gtime = ctx.pick(5, 7)
-    graphs = [("always", cfg_text([A], gtime, 1, crashes=False, **pol, **ctx.pick(mid, full)), False)]
+    graphs = [("always", cfg_text([A], ctx.pick(5, 6), 1, crashes="never", restart=not ctx.quick, **pol, **ctx.pick(mid, full)))]
     if not ctx.quick:
-        graphs.append(("streak", cfg_text([S], 4, 2, crashes=False, **pol, **small), False))
-        graphs.append(("always-crash", cfg_text([A], 5, 1, crashes=True, restart=False, **pol, **mid), True))
-    nsim = ctx.pick(400, 6000)
+        graphs.append(("streak", cfg_text([S], 3, 2, crashes="never", **pol, **small)))
+        graphs.append(("always-crash", cfg_text([A], 5, 1, crashes="any", restart=False, **pol, **small)))
+    nsim, ncr = ctx.pick(150, 2000), ctx.pick(120, 1000)
     pref = env.subdir("c23sim") + "/sim"
-    scfg = cfg_text([A, S, A | S], ctx.pick(7, 9), 2, crashes=True, **pol, **full)
+    prefc = env.subdir("c23simc") + "/sim"
+    scfg = cfg_text([A, S, A | S], ctx.pick(7, 9), 2, crashes="never", **pol, **full)
+    ccfg = cfg_text([A, S, A | S], ctx.pick(7, 9), 2, crashes="point", **pol, **full)
     total = covered = steps = ncrash = 0
     with ThreadPoolExecutor(max_workers=6) as tp:
         f_mc = [(n, tp.submit(tlc.run, "LogRotate", c, spec_dir=SPEC_DIR, deadlock=False, tag="c23mc" + n, workers=max(1, ncpu // 4)))
                 for n, c in mcs]
-        dots = {n: env.subdir("c23") + "/%s.dot" % n for n, _, _ in graphs}
-        f_g = [(n, cr, tp.submit(tlc.run, "LogRotate", c, spec_dir=SPEC_DIR, deadlock=False, dump_dot=dots[n], tag="c23g" + n,
-                                 coverage=False, workers=max(1, ncpu // 4))) for n, c, cr in graphs]
+        dots = {n: env.subdir("c23") + "/%s.dot" % n for n, _ in graphs}
+        f_g = [(n, tp.submit(tlc.run, "LogRotate", c, spec_dir=SPEC_DIR, deadlock=False, dump_dot=dots[n], tag="c23g" + n,
+                             coverage=False, workers=max(1, ncpu // 4))) for n, c in graphs]
         f_sim = tp.submit(tlc.run, "LogRotate", scfg, spec_dir=SPEC_DIR, deadlock=False, workers=1,
-                          simulate={"num": nsim, "depth": ctx.pick(60, 90), "file": pref}, seed=ctx.seed + 3, tag="c23sim")
-        for n, cr, f in f_g:
+                          simulate={"num": nsim, "depth": ctx.pick(70, 100), "file": pref}, seed=ctx.seed + 3, tag="c23sim")
+        f_simc = tp.submit(tlc.run, "LogRotate", ccfg, spec_dir=SPEC_DIR, deadlock=False, workers=1,
+                           simulate={"num": ncr, "depth": ctx.pick(70, 100), "file": prefc}, seed=ctx.seed + 4, tag="c23simc")
+        for n, f in f_g:
             res = f.result()
             laps.lap("graph-tlc")
             ctx.add_model(res, "LogRotate/graph-" + n)
@@ -348,10 +372,10 @@ def run_c23(ctx):
             laps.lap("graph-cover")
             plain = [t for t in traces if t[-1][1][0] != "Crash"]
             crash = [t for t in traces if t[-1][1][0] == "Crash"]
-            k, divs = LR.preplay("C23", plain, _mk_rot)
+            k, divs = LR.preplay("C23", plain, _mk_rot, post=annotate)
             steps += k
             ctx.diverge(divs)
-            k, divs = LR.preplay("C23", crash, _mk_crash)
+            k, divs = LR.preplay("C23", crash, _mk_crash, post=annotate)
             steps += k
             ncrash += len(crash)
             ctx.diverge(divs)
@@ -361,22 +385,27 @@ def run_c23(ctx):
         ctx.add_model(res, "LogRotate/simulate", {"num": nsim})
         sims = replay.load_sim_traces(pref)
         shutil.rmtree(os.path.dirname(pref), ignore_errors=True)
-        if len(sims) < nsim // 2:
-            raise tlc.TlcError("simulation produced %d behaviours instead of %d" % (len(sims), nsim))
+        res = f_simc.result()
+        ctx.add_model(res, "LogRotate/simulate-crash", {"num": ncr})
+        crash = [t for t in replay.load_sim_traces(prefc) if t[-1][1][0] == "Crash"]
+        shutil.rmtree(os.path.dirname(prefc), ignore_errors=True)
         laps.lap("simulate-tlc")
-        plain = [t for t in sims if t[-1][1][0] != "Crash"]
-        crash = [t for t in sims if t[-1][1][0] == "Crash"]
-        if len(crash) < nsim // 10:
-            raise tlc.TlcError("vacuous simulation: only %d of %d behaviours end in Crash" % (len(crash), len(sims)))
-        k, divs = LR.preplay("C23", plain, _mk_rot)
+        if len(sims) < nsim // 2 or len(crash) < ncr // 2:
+            raise tlc.TlcError("simulation produced %d + %d behaviours instead of %d + %d" % (len(sims), len(crash), nsim, ncr))
+        k, divs = LR.preplay("C23", sims, _mk_rot, post=annotate)
         steps += k
         ctx.diverge(divs)
-        k, divs = LR.preplay("C23", crash, _mk_crash)
+        ctx.add_validated(len(sims), {"simulated": [s[0] for s in sims[0]][:40]})
+        laps.lap("simulate-replay")
+        k, divs = LR.preplay("C23", crash, _mk_crash, post=annotate)
         steps += k
         ctx.diverge(divs)
         lost = sum(1 for t in crash if any(t[-2][2]["dur"][r][0] < len(t[-2][2]["ret"][r][0]) for r in t[-2][2]["ret"]))
-        ctx.add_validated(len(sims), {"crash behaviour": [s[0] for s in crash[0]][:40]})
-        laps.lap("simulate-replay")
+        rot = sum(1 for t in crash if any(len(f) > 0 for r in t[-2][2]["ret"] for f in t[-2][2]["ret"][r][1:]))
+        if lost < len(crash) // 20 or rot < len(crash) // 20:
+            raise tlc.TlcError("vacuous crash simulation: %d of %d with unflushed data, %d after a rotation" % (lost, len(crash), rot))
+        ctx.add_validated(len(crash), {"crash behaviour": [s[0] for s in crash[len(crash) // 2]][:40]})
+        laps.lap("crash-replay")
         for n, f in f_mc:
             res = f.result()
             ctx.add_model(res, "LogRotate/history-" + n)
@@ -388,7 +417,8 @@ def run_c23(ctx):
     ctx.exhaustive = (covered == total)
     ctx.extra.update({"graph_edges": total, "edges_replayed": covered, "steps_replayed": steps, "simulated_behaviours": len(sims),
                       "crash_scenarios_in_child_processes": ncrash + len(crash), "crash_scenarios_with_unflushed_data": lost,
-                      "phase_wall_s": laps.d, "distinct_nontrivial": covered + len(sims), "evaluations": steps})
+                      "crash_scenarios_after_rotation": rot, "phase_wall_s": laps.d,
+                      "distinct_nontrivial": covered + len(sims) + len(crash), "evaluations": steps})
 
 
 PROPERTIES = {"C23": run_c23}
